@@ -66,6 +66,13 @@ SCRIPTS = {
 
 plain = hc.plain
 
+SCRIPTS['history'] = _PRE + hc.FRESH_SRC + (
+    "pb = datetime.date({pby}, {pbm}, {pbd})\npm = datetime.date({pmy}, {pmm}, {pmd})\n"
+    "f = lambda: athlib.calc_uka_age_group(birth, match, cat, vets=vets, underage=underage)\n"
+    "g0 = fresh(f)\nhere(lambda: athlib.calc_uka_age_group(pb, pm, {pcat}, vets=vets, underage=underage))\ng1 = here(f)\n"
+    "print(birth, match, cat, vets, underage, '-> fresh', g0, '; after the same question for', pb, pm, {pcat}, '->', g1)\n"
+    "sys.exit(0 if g0 == g1 else 1)\n")
+
 
 def sym_date(tag, ylo, yhi):
     eng = E.cur()
@@ -163,6 +170,35 @@ def body_rule(cat, vets, underage):
     return body
 
 
+def body_history(cat, pcat, vets, underage):
+    """the answer for one (birth, meeting) pair after the same function was asked about another pair (own symbolic dates, category
+    pcat) equals the answer of a fresh import: prime; g1 = f(a); library state put back; g0 = f(a); g0 == g1"""
+    def body(R):
+        ag = sys.modules['athlib.uka.agegroups']
+        eng = E.cur()
+        birth, match = setup_dates()
+        # the earlier question: same athlete, another day of the same calendar month (what a results service asks in a row; a wider
+        # priming pair multiplies the paths of three calls beyond the budget)
+        pd_ = symint('pmd', 1, 31)
+        eng.add(D.valid_term(match.year, match.month, pd_))
+        pm = D.SymDate(match.year, match.month, pd_)
+        pb = birth
+        eng.add(pb._key() <= pm._key())
+        ins = inputs_of(birth, match, cat, vets, underage)
+        ins.update({'pby': pb.year, 'pbm': pb.month, 'pbd': pb.day, 'pmy': pm.year, 'pmm': pm.month, 'pmd': pm.day, 'pcat': pcat})
+        R.partial = {'inputs': ins}
+        try:
+            ag.calc_uka_age_group(pb, pm, pcat, vets=vets, underage=underage)
+        except Exception:
+            pass
+        g1 = call(ag, birth, match, cat, vets, underage)
+        hc.reset_library_state()
+        g0 = call(ag, birth, match, cat, vets, underage)
+        eng.check(group_eq_term(g0, g1), 'history')
+        return {'inputs': ins, 'observe': []}
+    return body
+
+
 def body_options(cat):
     """ISO string == date object; vets only V<->SEN; underage only U11<->U9"""
     def body(R):
@@ -208,12 +244,14 @@ def body_monotone(cat, vets, underage):
 def worker(job):
     kind = job[0]
     res = JobResult()
-    R = hc.Runner(res, plain(), 'athlib.calc_uka_age_group', SCRIPTS, max_paths=100000, deadline=time.time() + 900)
+    R = hc.Runner(res, plain(), 'athlib.calc_uka_age_group', SCRIPTS, max_paths=100000, deadline=time.time() + (300 if kind == 'history' else 900))
     try:
         if kind == 'rule':
             R.explore(body_rule(*job[1:]), 'rule %s vets=%s underage=%s' % job[1:])
         elif kind == 'options':
             R.explore(body_options(*job[1:]), 'options %s' % job[1:])
+        elif kind == 'history':
+            R.explore(body_history(*job[1:]), 'history %s after %s vets=%s underage=%s' % job[1:])
         else:
             R.explore(body_monotone(*job[1:]), 'monotone %s vets=%s underage=%s' % job[1:])
     except E.Budget as e:
@@ -240,6 +278,8 @@ def run(chk, only=None):
                 jobs.append(('rule', cat, vets, underage))
                 jobs.append(('monotone', cat, vets, underage))
         jobs.append(('options', cat))
+        for pcat in (('TF', 'XC', 'ROAD') if not quick else (cat,)):
+            jobs.append(('history', cat, pcat, True, True))
     if only:
         jobs = [j for j in jobs if j[0] == only]
     chk.functions = ['athlib.uka.agegroups.calc_uka_age_group', 'athlib.uka.agegroups.rule107_agegroups_trackandfield',
@@ -251,6 +291,7 @@ def run(chk, only=None):
     chk.bounds = {'competition_date': 'every valid date 1900-01-01 .. 2100-12-31 (symbolic year, month, day)', 'birth_date': 'every valid date not after the competition date and at most 110 calendar years before it',
                   'categories': ['TF', 'XC', 'ROAD'], 'vets': [True, False], 'underage': [True, False],
                   'tf_rule_text_window': 'competition dates 1 Jan - 30 Sep'}
+    chk.bounds['history'] = 'one earlier call for the same birth date and another (symbolic) day of the same calendar month, then the call: same group as from a fresh import (library state put back inside the path for the reference answer)'
     chk.outside = ['birth dates after the competition date; ages above 110; category ESAA (NotImplementedError by design) and unknown categories; birth dates as non-ISO text']
     pool.run_jobs(chk, worker, jobs, chunksize=1)
     chk.extra['functions_loaded_through_hook'] = hc.functions_loaded()
